@@ -12,16 +12,30 @@
      ToFromJson(i) the same through JSON text (what the SQLite store does): same id, nothing shared
                    -- both run the base-class constructor, so the id counter advances although the id is overwritten; the result is a
                       base-class object whose state is the STRING 'empty', not the enum member                  (named: StateBecomesString)
-     SetVec / SetCost / SetSigned   in-place change through one object: visible through exactly the aliases              *)
+     SetVec / SetCost / SetSigned   in-place change through one object: visible through exactly the aliases
+   Particles (IndividualSwarm, class "swarm"): the personal best VECTOR is a reference kept in the features dictionary (best[f] for the
+   dictionary f; absent = None), so whoever shares the dictionary shares the personal best:
+     InitPbest(i)  SwarmAlgorithm.init_pbest / update_particle_best: best_vector := the particle's OWN vector list, by reference
+                   -- an in-place move of the particle (update_position writes vector[k]) moves its personal best with it
+                                                                                                                (named: BestAliasesPosition)
+     CopySwarm(i)  IndividualSwarm.copy(): own vector, fresh dictionary, personal best SHARED with the original   (named: BestSharedByCopy)
+                   -- what makes the generation loop safe is the order copy -> move the copy -> update the copy's best: the copy's
+                      vector is fresh, so moving it disturbs nobody's personal best                              (CopyIsolatesPosition)
+     ToFrom / ToFromJson copy the personal best into a list of its own (_replace_individual_id rebuilds every iterable feature)          *)
 EXTENDS Integers, Sequences, FiniteSets, TLC
 CONSTANTS MaxObjs, MaxOps, Vals
-VARIABLES objs, lists, counter, nops
-vars == <<objs, lists, counter, nops>>
-Init == objs = <<>> /\ lists = <<>> /\ counter = 0 /\ nops = 0
+VARIABLES objs, lists, counter, nops, best
+vars == <<objs, lists, counter, nops, best>>
+Init == objs = <<>> /\ lists = <<>> /\ counter = 0 /\ nops = 0 /\ best = <<>>
+\* best[f]: the 'best_vector' entry of dictionary f -- f \notin DOMAIN best: the key is absent (a dictionary made by a non-particle
+\* constructor); 0: the key is there and holds None; otherwise the reference of the list
+BestOf(f) == IF f \in DOMAIN best THEN best[f] ELSE 0
+HasBestKey(f) == f \in DOMAIN best
+CtorBest(cls, f) == IF cls = "swarm" THEN (f :> 0) @@ best ELSE best
 Step == nops < MaxOps /\ nops' = nops + 1
 Room == Len(objs) < MaxObjs
 Obj(id, v, c, s, f, origin, cls, pop, st) == [id |-> id, vec |-> v, costs |-> c, signed |-> s, feat |-> f, origin |-> origin, cls |-> cls, pop |-> pop, state |-> st]
-Classes == {"base", "nsga"}
+Classes == {"base", "nsga", "swarm"}
 \* to_dict names the enum member in lower case; a state that already is a string (an object that came from from_dict) is not
 \* recognised by to_string and becomes None: a second round trip loses the state                          (named: StateLostOnSecondRoundTrip)
 DictState(st) == IF st = "EMPTY" THEN "empty" ELSE "None"
@@ -30,52 +44,82 @@ N == Len(lists)
 New(v, cls) == /\ Step /\ Room
           /\ lists' = lists \o << <<v>>, <<>>, <<>>, <<>> >>
           /\ objs' = Append(objs, Obj(counter, N + 1, N + 2, N + 3, N + 4, "ctor", cls, CtorPop(cls), "EMPTY"))
-          /\ counter' = counter + 1
+          /\ counter' = counter + 1 /\ best' = CtorBest(cls, N + 4)
 Copy(i) == /\ Step /\ Room /\ i \in DOMAIN objs
            /\ lists' = lists \o << lists[objs[i].vec], <<>>, <<>>, <<>> >>
            /\ objs' = Append(objs, Obj(counter, N + 1, N + 2, N + 3, N + 4, "ctor", objs[i].cls, CtorPop(objs[i].cls), "EMPTY"))
-           /\ counter' = counter + 1
+           /\ counter' = counter + 1 /\ best' = CtorBest(objs[i].cls, N + 4)
 CopyNsga(i) == /\ Step /\ Room /\ i \in DOMAIN objs /\ objs[i].cls = "nsga"
                /\ lists' = lists \o << lists[objs[i].vec], <<>> >>
                /\ objs' = Append(objs, Obj(counter, N + 1, objs[i].costs, objs[i].signed, N + 2, "ctor", "nsga", 0, "EMPTY"))
-               /\ counter' = counter + 1
+               /\ counter' = counter + 1 /\ UNCHANGED best
 Sync(a, b) == /\ Step /\ a \in DOMAIN objs /\ b \in DOMAIN objs /\ a # b
               /\ objs' = [objs EXCEPT ![a] = [@ EXCEPT !.vec = objs[b].vec, !.costs = objs[b].costs, !.signed = objs[b].signed, !.feat = objs[b].feat,
                                                             !.pop = objs[b].pop, !.state = objs[b].state]]
-              /\ UNCHANGED <<lists, counter>>
+              /\ UNCHANGED <<lists, counter>> /\ UNCHANGED best
+\* the personal best of the source, if any, is rebuilt as a list of its own right after the new dictionary
+WithBest(src, base, f) == IF ~HasBestKey(src) THEN <<base, best>>
+                          ELSE IF best[src] = 0 THEN <<base, (f :> 0) @@ best>>
+                          ELSE <<Append(base, lists[best[src]]), (f :> (Len(base) + 1)) @@ best>>
 ToFrom(i) == /\ Step /\ Room /\ i \in DOMAIN objs
-             /\ lists' = lists \o << lists[objs[i].vec], lists[objs[i].costs], lists[objs[i].feat] >>
+             /\ LET wb == WithBest(objs[i].feat, lists \o << lists[objs[i].vec], lists[objs[i].costs], lists[objs[i].feat] >>, N + 3)
+                IN lists' = wb[1] /\ best' = wb[2]
              /\ objs' = Append(objs, Obj(objs[i].id, N + 1, N + 2, objs[i].signed, N + 3, "dict", "base", objs[i].pop, DictState(objs[i].state)))
              /\ counter' = counter + 1
 ToFromJson(i) == /\ Step /\ Room /\ i \in DOMAIN objs
-                 /\ lists' = lists \o << lists[objs[i].vec], lists[objs[i].costs], lists[objs[i].signed], lists[objs[i].feat] >>
+                 /\ LET wb == WithBest(objs[i].feat, lists \o << lists[objs[i].vec], lists[objs[i].costs], lists[objs[i].signed], lists[objs[i].feat] >>, N + 4)
+                    IN lists' = wb[1] /\ best' = wb[2]
                  /\ objs' = Append(objs, Obj(objs[i].id, N + 1, N + 2, N + 3, N + 4, "dict", "base", objs[i].pop, DictState(objs[i].state)))
                  /\ counter' = counter + 1
+\* a particle that took a non-particle's dictionary through sync has no 'best_vector' key: its copy() raises KeyError, the model does
+\* not enable the step                                                                                       (named: ParticleWithoutBestKey)
+CopySwarm(i) == /\ Step /\ Room /\ i \in DOMAIN objs /\ objs[i].cls = "swarm" /\ HasBestKey(objs[i].feat)
+                /\ lists' = lists \o << lists[objs[i].vec], <<>>, <<>>, <<>> >>
+                /\ objs' = Append(objs, Obj(counter, N + 1, N + 2, N + 3, N + 4, "ctor", "swarm", -1, "EMPTY"))
+                /\ best' = ((N + 4) :> best[objs[i].feat]) @@ best
+                /\ counter' = counter + 1
+InitPbest(i) == /\ Step /\ i \in DOMAIN objs
+                /\ best' = (objs[i].feat :> objs[i].vec) @@ best
+                /\ UNCHANGED <<objs, lists, counter>>
 SetVec(i, x) == /\ Step /\ i \in DOMAIN objs
                 /\ lists' = [lists EXCEPT ![objs[i].vec] = [@ EXCEPT ![1] = x]]
-                /\ UNCHANGED <<objs, counter>>
+                /\ UNCHANGED <<objs, counter>> /\ UNCHANGED best
 SetCost(i, x) == /\ Step /\ i \in DOMAIN objs /\ Len(lists[objs[i].costs]) < 2
                  /\ lists' = [lists EXCEPT ![objs[i].costs] = Append(@, x)]
-                 /\ UNCHANGED <<objs, counter>>
+                 /\ UNCHANGED <<objs, counter>> /\ UNCHANGED best
 SetSigned(i, x) == /\ Step /\ i \in DOMAIN objs /\ Len(lists[objs[i].signed]) < 2
                    /\ lists' = [lists EXCEPT ![objs[i].signed] = Append(@, x)]
-                   /\ UNCHANGED <<objs, counter>>
+                   /\ UNCHANGED <<objs, counter>> /\ UNCHANGED best
 \* the features dictionary (one tracked key): every constructor call and every dictionary round trip makes a fresh one; only sync shares it
 SetFeat(i, x) == /\ Step /\ i \in DOMAIN objs
                  /\ lists' = [lists EXCEPT ![objs[i].feat] = <<x>>]
-                 /\ UNCHANGED <<objs, counter>>
+                 /\ UNCHANGED <<objs, counter>> /\ UNCHANGED best
 Next == \/ \E v \in Vals, c \in Classes : New(v, c)
-        \/ \E i \in 1..MaxObjs : Copy(i) \/ CopyNsga(i) \/ ToFrom(i) \/ ToFromJson(i)
+        \/ \E i \in 1..MaxObjs : Copy(i) \/ CopyNsga(i) \/ ToFrom(i) \/ ToFromJson(i) \/ CopySwarm(i) \/ InitPbest(i)
         \/ \E a, b \in 1..MaxObjs : Sync(a, b)
         \/ \E i \in 1..MaxObjs, x \in Vals : SetVec(i, x) \/ SetCost(i, x) \/ SetSigned(i, x) \/ SetFeat(i, x)
 Spec == Init /\ [][Next]_vars
 \* ---- what the rest of the framework relies on ----
-TypeOK == \A i \in DOMAIN objs : {objs[i].vec, objs[i].costs, objs[i].signed, objs[i].feat} \subseteq DOMAIN lists
+TypeOK == /\ \A i \in DOMAIN objs : {objs[i].vec, objs[i].costs, objs[i].signed, objs[i].feat} \subseteq DOMAIN lists
+          /\ \A f \in DOMAIN best : f \in DOMAIN lists /\ best[f] \in DOMAIN lists \cup {0}
 CounterAhead == \A i \in DOMAIN objs : objs[i].id < counter                                   \* a fresh id is never one in use
 CtorIdsUnique == \A i, j \in DOMAIN objs : (i # j /\ objs[i].origin = "ctor" /\ objs[j].origin = "ctor") => objs[i].id # objs[j].id
 \* a vector list is never the costs or signed list of anything (the three kinds of list never mix)
 KindsApart == \A i, j \in DOMAIN objs : /\ objs[i].vec \notin {objs[j].costs, objs[j].signed, objs[j].feat}
                                          /\ objs[i].costs \notin {objs[j].signed, objs[j].feat} /\ objs[i].signed # objs[j].feat
+\* ---- particles ----
+\* a personal best is a vector-like list of its own kind: never anybody's costs, signed costs or dictionary
+BestKind == \A f \in DOMAIN best : \A j \in DOMAIN objs : best[f] = 0 \/ best[f] \notin {objs[j].costs, objs[j].signed, objs[j].feat}
+\* the generation loop's safety: the vector of a fresh particle copy is nobody's personal best, so moving the copy in place disturbs no best
+CopyIsolatesPosition == [][ \A i \in 1..MaxObjs : CopySwarm(i) => \A f \in DOMAIN best' : best'[f] # objs'[Len(objs')].vec ]_vars
+\* an in-place move changes the personal-best contents of exactly the dictionaries whose best is that very list
+MoveReachesBestOnlyThroughAlias ==
+   [][ \A i \in 1..MaxObjs, x \in Vals : SetVec(i, x) => \A f \in DOMAIN best : (best[f] # 0 /\ lists'[best[f]] # lists[best[f]]) => best[f] = objs[i].vec ]_vars
+\* named deviation BestAliasesPosition, stated as the invariant a reader would expect -- TLC must REFUTE it (x03 checks that it does):
+\* "the recorded personal best of a particle is a list other than its current position"
+BestIsASnapshot == \A i \in DOMAIN objs : BestOf(objs[i].feat) # objs[i].vec
+\* a particle always has the dictionary keys its own copy() needs -- also REFUTED (sync with a non-particle): ParticleWithoutBestKey
+ParticlesCanBeCopied == \A i \in DOMAIN objs : objs[i].cls = "swarm" => HasBestKey(objs[i].feat)
 \* feature dictionaries are shared only through sync: copies and round trips get their own (C07's parallel evaluation writes the
 \* feasibility of a design into its features while other designs are in flight)
 FeatSharedOnlyBySync ==
